@@ -20,11 +20,40 @@ def run_programs(ctx, bt, n, checker, spec_kwargs=None, spec_mutator=None, corpu
         run_one(ctx, bt, spec, checker, spy)
 
 
+import contextlib
+import sys
+
+
+@contextlib.contextmanager
+def flow_log(bt):
+    """external capital adjustments: every `adjust` whose caller is not the engine itself (bt/core.py) - issued by algos, by
+    Backtest.run, by user code - as (full name of the node, date, amount, flow?)"""
+    c = bt.core
+    orig = c.StrategyBase.adjust
+    core_file = c.__file__
+    log = []
+
+    def w(self, amount, update=True, flow=True, fee=0.0):
+        try:
+            caller = sys._getframe(1).f_code.co_filename
+        except Exception:
+            caller = ""
+        if caller != core_file:
+            log.append((self.full_name, self.now, float(amount), bool(flow), self.parent is self))
+        return orig(self, amount, update, flow, fee)
+    c.StrategyBase.adjust = w
+    try:
+        yield log
+    finally:
+        c.StrategyBase.adjust = orig
+
+
 def run_one(ctx, bt, spec, checker, spy=False):
     try:
-        with R.trade_log(bt) as log:
+        with R.trade_log(bt) as log, flow_log(bt) as flows:
             b, data, add = R.build_backtest(bt, spec, spy_log=[] if spy else None)
             b.run()
+            b._verif_flow_log = [f for f in flows if f[0] == b.strategy.full_name and f[4]]
     except Exception as e:  # noqa
         ctx.count("program-raised:" + E.classify_exc(e))
         return None
